@@ -356,6 +356,21 @@ func (lib *SpecLib) loadContractFile(path, pkgPath string) error {
 				cl.Expr = e
 				cur.Clauses = append(cur.Clauses, cl)
 				continue
+			case "sendsite":
+				// sendsite requires <expr over ch, val>: obligation at every channel send of the function
+				f := strings.Fields(rest)
+				if len(f) < 2 || f[0] != "requires" {
+					return fail(fmt.Errorf("sendsite requires <expr>"))
+				}
+				cl.Kind = "sendsite"
+				cl.Text = strings.TrimSpace(strings.TrimPrefix(strings.TrimSpace(rest), "requires"))
+				e, err := parseCExpr(cl.Text)
+				if err != nil {
+					return fail(err)
+				}
+				cl.Expr = e
+				cur.Clauses = append(cur.Clauses, cl)
+				continue
 			case "preserves":
 				// preserves T1, T2: with `modifies everything`, field heaps of these struct types keep their values
 				for _, part := range splitTopLevel(rest, ',') {
@@ -398,7 +413,7 @@ func (lib *SpecLib) loadContractFile(path, pkgPath string) error {
 	return nil
 }
 
-var clauseKeywords = map[string]bool{"package": true, "callsite": true, "iterator": true, "iter": true, "preserves": true, "functype": true, "label": true, "captures": true, "func": true, "pred": true, "specfunc": true, "axiom": true, "lemma": true,
+var clauseKeywords = map[string]bool{"sendsite": true, "package": true, "callsite": true, "iterator": true, "iter": true, "preserves": true, "functype": true, "label": true, "captures": true, "func": true, "pred": true, "specfunc": true, "axiom": true, "lemma": true,
 	"requires": true, "ensures": true, "modifies": true, "loop": true, "floats": true, "may_panic": true,
 	"inline": true, "trusted": true, "pure": true, "property": true, "assume": true, "nosafety": true}
 
